@@ -206,3 +206,27 @@ func VH_C15_topa_trim() {
 	o2 := <-cOut2
 	vAssert("C15.topa.untrimmed-unchanged", string(o2.ref) == string(R) && string(o2.query) == string(Q))
 }
+
+// VH_C15_sam_wrap: toPairAlign's wrap() only re-breaks the line.
+func VH_C15_sam_wrap() {
+	L := vParam("L")
+	s := make([]byte, L)
+	for i := range s {
+		s[i] = vNuc(vName("s", i), "ACGTN-")
+	}
+	w := vChoice("wrap", L+2) // 0 = no wrapping
+	got := wrap(string(s), w)
+	exp := ""
+	if w <= 0 {
+		exp = string(s) + "\n"
+	} else {
+		for i := 0; i < L; i += w {
+			j := i + w
+			if j > L {
+				j = L
+			}
+			exp += string(s[i:j]) + "\n"
+		}
+	}
+	vAssert("C15.samwrap.rebreak-only", got == exp)
+}
